@@ -633,15 +633,23 @@ pub fn run(prop: &'static str, tier: Tier) -> ! {
         // long inputs: more than 2^16 lines, a column beyond 2^16, multi-byte lines; one pass from
         // offset 0 and a second pass after a reset into the middle
         use scnr::{MatchExtIterator, PositionProvider};
-        let cfg = Cfg::single(vec![CPat::new("[a-zé]+", 0), CPat::new("\\n", 1), CPat::new(" +", 2)]);
-        let sc = cfg.build_uncached().expect("builds");
-        let inputs_long: Vec<(&str, String)> = vec![
-            ("70 000 short lines", "ab é\n".repeat(70_000)),
-            ("one line of 70 000 bytes, then two short lines", format!("{} x\nab\n\né", "a".repeat(70_000))),
-            ("300 empty lines between tokens", format!("a{}b\n", "\n".repeat(300))),
+        let cfg0 = Cfg::single(vec![CPat::new("[a-zé]+", 0), CPat::new("\\n", 1), CPat::new(" +", 2)]);
+        // tokens that contain line breaks: runs of empty lines as one token, comment-like tokens
+        // over many lines
+        let cfg1 = Cfg::single(vec![CPat::new("c[a\\n]*d", 0), CPat::new("\\n+", 1), CPat::new("[ab]+", 2), CPat::new(" ", 3)]);
+        let mut inputs_long: Vec<(Cfg, String, String, bool)> = vec![
+            (cfg0.clone(), "70 000 short lines".into(), "ab é\n".repeat(70_000), false),
+            (cfg0.clone(), "one line of 70 000 bytes, then two short lines".into(), format!("{} x\nab\n\né", "a".repeat(70_000)), false),
+            (cfg0.clone(), "300 empty lines between tokens".into(), format!("a{}b\n", "\n".repeat(300)), false),
+            (cfg0.clone(), "120 short lines, every boundary queried, reset to every token from the back".into(), "ab é\nx\n\n".repeat(40), true),
         ];
+        for k in (0..=40).chain([63, 64, 65, 127, 128, 129, 255, 256, 257]) {
+            inputs_long.push((cfg1.clone(), format!("one token over {k} lines, then a run of {k} empty lines as one token"), format!("b\nc{}d\nb{}a b\n\nab", "a\n".repeat(k), "\n".repeat(k)), true));
+        }
         let mut n_tok = 0usize;
-        for (name, input) in &inputs_long {
+        for (cfg, name, input, dense) in &inputs_long {
+            let sc = cfg.build_uncached().expect("builds");
+            let dense = *dense;
             // true line/column by a single pass over the bytes
             let mut line_start = vec![0usize];
             for (i, b) in input.bytes().enumerate() {
@@ -688,8 +696,10 @@ pub fn run(prop: &'static str, tier: Tier) -> ! {
                         }
                         None => {
                             // position queries on scanned offsets, then a reset into the middle and a second pass
-                            for o in [0, input.len() / 3, input.len() / 2, input.len() - 1, input.len()] {
-                                if input.is_char_boundary(o) {
+                            let few = [0, input.len() / 3, input.len() / 2, input.len() - 1, input.len()];
+                            let queries: Vec<usize> = if dense { (0..=input.len()).collect() } else { few.to_vec() };
+                            for o in queries {
+                                if input.is_char_boundary(o) && bad.is_none() {
                                     let p = it.position(o);
                                     if (p.line, p.column) != truth(o) && Some((p.line, p.column)) != lenient(o) {
                                         bad = Some(format!("position({o}) is {:?}, true {:?}", (p.line, p.column), truth(o)));
@@ -708,6 +718,35 @@ pub fn run(prop: &'static str, tier: Tier) -> ! {
                         }
                     }
                 }
+                // resets to every token start, from the back: the first token from there and the
+                // position of its start
+                if dense && bad.is_none() {
+                    let starts: Vec<usize> = sc.find_iter(input).map(|m| m.start()).collect();
+                    for &s0 in starts.iter().rev() {
+                        it.set_offset(s0);
+                        match it.next() {
+                            Some(m) => {
+                                count += 1;
+                                let (s, e) = (m.start(), m.end());
+                                let sp = (m.start_position().line, m.start_position().column);
+                                let ep = (m.end_position().line, m.end_position().column);
+                                if s != s0 || sp != truth(s) || (ep != truth(e) && Some(ep) != lenient(e)) {
+                                    bad = Some(format!("after set_offset({s0}) the next token is {s}..{e} with positions {sp:?}..{ep:?}, true {:?}..{:?}", truth(s), truth(e)));
+                                    break;
+                                }
+                                let p = it.position(s0);
+                                if (p.line, p.column) != truth(s0) {
+                                    bad = Some(format!("after set_offset({s0}) and next(), position({s0}) is {:?}, true {:?}", (p.line, p.column), truth(s0)));
+                                    break;
+                                }
+                            }
+                            None => {
+                                bad = Some(format!("after set_offset({s0}) no token is delivered"));
+                                break;
+                            }
+                        }
+                    }
+                }
                 (bad, count)
             });
             match r {
@@ -723,7 +762,7 @@ pub fn run(prop: &'static str, tier: Tier) -> ! {
                 total.viol.add("", || Violation { key: String::new(), summary: format!("long input ({name}): {b}"), replay: json!({"configuration": cfg.to_json(), "input": name, "input_bytes": input.len(), "calls": ["find_iter(input).with_positions()", "next() until None", "position(o) for some scanned o", "set_offset(len/2)", "next() until None"], "disagreement": b}) });
             }
         }
-        fam_json.push(json!({"family": "long inputs: 70 000 lines, a 70 000 byte line, 300 empty lines; full pass, position queries, reset into the middle, second pass", "cases": inputs_long.len(), "token_positions_compared": n_tok}));
+        fam_json.push(json!({"family": "long inputs: 70 000 lines, a 70 000 byte line, 300 empty lines; full pass, position queries, reset into the middle, second pass; 120 short lines and one token over k lines + a run of k empty lines as one token for k in 0..40, 63..65, 127..129, 255..257: additionally position(o) for every boundary after each pass and a reset to every token start from the back", "cases": inputs_long.len(), "token_positions_compared": n_tok}));
     }
     let n_dis = total.viol.total();
     std::mem::take(&mut total.viol).flush(&mut run);
